@@ -319,7 +319,7 @@ func (s *sut) runRound(r Round) bool {
 	select {
 	case <-done:
 		return true
-	case <-time.After(10 * time.Second):
+	case <-time.After(3 * time.Second):
 		return false
 	}
 }
